@@ -57,6 +57,35 @@ func allUnits(thorough bool) []*unit {
 	var us []*unit
 	us = append(us, consUnits(thorough)...)
 	us = append(us, otherUnits(thorough)...)
+	// scheduling estimates (ms) measured on the unchanged tree; only the order of dispatch depends on them
+	for _, u := range us {
+		switch {
+		case u.Kind == "byzblock":
+			u.Est = 25000
+		case u.Reactor == "consensus" && u.Kind == "single" && u.Msg == "Proposal" && u.Peer == peerKnown:
+			u.Est = 9000
+		case u.Reactor == "blockchain" && u.Kind == "bytes" && strings.HasPrefix(u.Msg, "BlockResponse"):
+			u.Est = 9500
+		case u.Reactor == "evidence" && u.Kind == "resigned":
+			u.Est = 8000
+		case u.Reactor == "txpool" && u.Kind == "resigned":
+			u.Est = 7000
+		case u.Reactor == "evidence" && u.Kind == "single":
+			u.Est = 5500
+		case u.Kind == "short" && u.Reactor == "consensus":
+			u.Est = 4600
+		case u.Kind == "pair":
+			u.Est = 5000
+		case u.Kind == "resigned":
+			u.Est = 4500
+		case u.Kind == "bytes":
+			u.Est = 2500
+		case u.Kind == "single":
+			u.Est = 2000
+		default:
+			u.Est = 1000
+		}
+	}
 	return us
 }
 
@@ -89,6 +118,11 @@ type violRec struct {
 	What   string `json:"what"`
 }
 
+type skippedCase struct {
+	Idx  int    `json:"idx"`
+	Case *caseT `json:"case"`
+}
+
 type unitResult struct {
 	T          string            `json:"t"`
 	Unit       int               `json:"unit"`
@@ -107,6 +141,7 @@ type unitResult struct {
 	RoundTrips int64             `json:"roundtrips"`
 	Decoded    int64             `json:"decoded"`
 	Notes      map[string]int64  `json:"notes"`
+	Skipped    []skippedCase     `json:"skipped"`
 	dset       map[string]struct{}
 }
 
@@ -123,6 +158,14 @@ func (w *worker) writeJournal() {
 }
 
 func (w *worker) execute(cs *caseT) *outcome {
+	if cs.Kind == "roundtrip" {
+		out := &outcome{Stage: "roundtrip-ok", Decoded: true}
+		if pr := roundTrip(cs.Reactor, cs.bytes()); pr != "" {
+			out.Stage = "roundtrip-broken"
+			out.viol("roundtrip", "a well-formed %s message does not survive encode/decode: %s", cs.Msg, pr)
+		}
+		return out
+	}
 	switch cs.Reactor {
 	case "consensus":
 		return w.cons.run(cs)
@@ -158,7 +201,14 @@ func (w *worker) emit(cs *caseT) {
 	if w.only >= 0 && idx != w.only {
 		return
 	}
-	if idx < w.from || w.skip[idx] {
+	if w.skip[idx] {
+		// a case that killed an earlier worker: describe it for the parent, do not execute it
+		c := *cs
+		c.freeze()
+		w.res.Skipped = append(w.res.Skipped, skippedCase{Idx: idx, Case: &c})
+		return
+	}
+	if idx < w.from {
 		return
 	}
 	if w.sinceFl >= 1000 {
@@ -491,6 +541,7 @@ func main() {
 		r.SetDeadline(80 * time.Second)
 	}
 	setLogging()
+	t0 := time.Now()
 	target := pickTarget()
 	us := allUnits(r.Thorough())
 	order := make([]int, len(us))
@@ -548,6 +599,13 @@ func main() {
 						mu.Lock()
 						unitsDone++
 						mu.Unlock()
+						if os.Getenv("C18_TIMING") != "" {
+							var ms float64
+							for _, p := range parts {
+								ms += p.WallMs
+							}
+							fmt.Fprintf(os.Stderr, "T+%6.1fs worker %2d unit %-70s %8.0f ms (est %d)\n", time.Since(t0).Seconds(), id, us[idx].ID, ms, us[idx].Est)
+						}
 						break
 					}
 					// the worker died: attribute to the journalled case, continue from the last checkpoint in a new
@@ -582,6 +640,9 @@ func main() {
 		}(i)
 	}
 	wg.Wait()
+	if os.Getenv("C18_TIMING") != "" {
+		fmt.Fprintf(os.Stderr, "T+%6.1fs all units done\n", time.Since(t0).Seconds())
+	}
 	finish(r, us, results, deaths, machinery, expired, tier, target, unitsDone)
 }
 
